@@ -74,6 +74,53 @@ func raceSignature(block string) string {
 	return strings.Join(fr, " <- ")
 }
 
+// runChild runs the c17 workload in a child process (bin, or this binary when
+// bin is empty) and returns its exit code and what it wrote to stderr.
+func runChild(bin string, cfg *hv.RunCfg, env []string) (int, string, error) {
+	if bin == "" {
+		self, err := os.Executable()
+		if err != nil {
+			return 0, "", err
+		}
+		bin = self
+	}
+	abs, err := filepath.Abs(cfg.Out)
+	if err != nil {
+		return 0, "", err
+	}
+	args := []string{"c17", "-seed", fmt.Sprint(cfg.Seed), "-n", fmt.Sprint(cfg.N), "-out", abs, "-tier", cfg.Tier}
+	if cfg.Replay != "" {
+		args = append(args, "-replay", cfg.Replay)
+	}
+	os.Remove(filepath.Join(abs, "report.json"))
+	cmd := exec.Command(bin, args...)
+	cmd.Env = childEnv(append([]string{"C17_CHILD=1"}, env...)...)
+	var stderr bytes.Buffer
+	cmd.Stderr = &stderr
+	cmd.Stdout = os.Stdout
+	if runErr := cmd.Run(); runErr != nil {
+		if ee, ok := runErr.(*exec.ExitError); ok {
+			return ee.ExitCode(), stderr.String(), nil
+		}
+		return 0, "", runErr
+	}
+	os.Stderr.Write(stderr.Bytes())
+	return 0, stderr.String(), nil
+}
+
+// writeCrashReport: the child died (fatal error, os.Exit != 0) without a usable report.
+func writeCrashReport(cfg *hv.RunCfg, exit int, log string) error {
+	rep := hv.NewReport("C17", cfg.Seed)
+	tail := log
+	if i := strings.Index(tail, "fatal error:"); i >= 0 {
+		tail = tail[i:]
+	}
+	rep.Notes = append(rep.Notes, fmt.Sprintf("workload process exited with code %d before writing its report", exit))
+	rep.Fail(hv.Failure{Kind: "panic", Detail: fmt.Sprintf("workload process exited with code %d: %s", exit, trunc(tail, 3000)), Input: "c17 workload process"})
+	rep.Hist("oracle-fail:panic")
+	return rep.Write(cfg.Out)
+}
+
 func runC17Race(cfg *hv.RunCfg) error {
 	abs, err := filepath.Abs(cfg.Out)
 	if err != nil {
@@ -95,23 +142,9 @@ func runC17Race(cfg *hv.RunCfg) error {
 		}
 		buildNote = "built " + bin + " with CGO_ENABLED=1 go build -race -tags verif in " + cmd.Dir
 	}
-	args := []string{"c17", "-seed", fmt.Sprint(cfg.Seed), "-n", fmt.Sprint(cfg.N), "-out", abs, "-tier", cfg.Tier}
-	if cfg.Replay != "" {
-		args = append(args, "-replay", cfg.Replay)
-	}
-	cmd := exec.Command(bin, args...)
-	cmd.Env = childEnv("GORACE=halt_on_error=0 exitcode=66")
-	var stderr bytes.Buffer
-	cmd.Stderr = &stderr
-	cmd.Stdout = os.Stdout
-	runErr := cmd.Run()
-	exit := 0
-	if runErr != nil {
-		if ee, ok := runErr.(*exec.ExitError); ok {
-			exit = ee.ExitCode()
-		} else {
-			return runErr
-		}
+	exit, log, err := runChild(bin, cfg, []string{"GORACE=halt_on_error=0 exitcode=66"})
+	if err != nil {
+		return err
 	}
 	os.Remove(filepath.Join(abs, "c17.race"))
 
@@ -127,8 +160,7 @@ func runC17Race(cfg *hv.RunCfg) error {
 	}
 	rep.Notes = append(rep.Notes, "c17race: "+buildNote, fmt.Sprintf("c17race: child exit code %d", exit),
 		"the race detector judges only the schedules that happened: supporting evidence, not a proof")
-	log := stderr.String()
-	os.WriteFile(filepath.Join(abs, "race-stderr.txt"), stderr.Bytes(), 0o644)
+	os.WriteFile(filepath.Join(abs, "race-stderr.txt"), []byte(log), 0o644)
 	blocks := strings.Split(log, "WARNING: DATA RACE")
 	seen := map[string]bool{}
 	for _, b := range blocks[1:] {
